@@ -14,6 +14,8 @@ def sig_of(ev, why):
             s = inp.decode("utf-8")
         except UnicodeDecodeError:
             s = ""
+        if "\x00" in s:
+            return "C13 css lossless: U+0000 (CSS has no escape for it)"
         for a, b in zip(s, s[1:]):
             if not (a.isascii() and a.isalnum()) and b in "0123456789abcdefABCDEF":
                 return "C13 css lossless: unterminated escape followed by a hex digit"
@@ -36,7 +38,7 @@ def check(run, only_cases=None):
                 "random strings; x 5 escapers, each called directly, as registered in the Twig environment, and through the escape filter on a value marked safe for another content type. non-trivial = the input contains a character the escaper rewrites "
                 "(output differs from input)")
     run.assumptions = ["decoders of the target contexts are the ones transcribed in spec/Escape.tla",
-                       "html_attr: inputs with control characters and css: inputs with U+0000 are judged on inertness only"]
+                       "html_attr: inputs with control characters are judged on inertness only (the statement's own exception)"]
     # role 1: the reference escapers satisfy C13 on the whole code space
     common.run_tlc("C13_MC", "C13_MC" if thorough else "C13_MC_quick", timeout=1500, heap="8g")
     # the named defect variants must be caught (guards against vacuous predicates)
